@@ -3,6 +3,7 @@
 package main
 
 import (
+	"bytes"
 	"encoding/json"
 	"fmt"
 	"sort"
@@ -106,6 +107,8 @@ func runKernel(out *sink, op string) string {
 		return kGraph(out, f[1:])
 	case "swag":
 		return kSwagger(out, f[1:])
+	case "paths":
+		return kPaths(out, f[1:])
 	}
 	return "bad-op"
 }
@@ -237,6 +240,126 @@ func kSwagger(out *sink, toks []string) string {
 	props, _ := v["properties"].(map[string]any)
 	out.emit("N", "")
 	return "ok " + describeSwagger(props["p0"])
+}
+
+// ---- paths: Document.addMethod's grouping of operations by path + OrderedMap rendering
+//   paths <n> (<VERB> <pathHex>)*   methods M0.. of two services (even / odd index), in order
+
+// orderedKeys reads the keys of the JSON object at the decoder's position, in document order,
+// with the raw value of each.
+func orderedKeys(dec *json.Decoder) ([]string, []json.RawMessage, error) {
+	t, err := dec.Token()
+	if err != nil {
+		return nil, nil, err
+	}
+	if d, ok := t.(json.Delim); !ok || d != '{' {
+		return nil, nil, fmt.Errorf("not an object")
+	}
+	var keys []string
+	var vals []json.RawMessage
+	for dec.More() {
+		kt, err := dec.Token()
+		if err != nil {
+			return nil, nil, err
+		}
+		k, ok := kt.(string)
+		if !ok {
+			return nil, nil, fmt.Errorf("key is no string")
+		}
+		var raw json.RawMessage
+		if err := dec.Decode(&raw); err != nil {
+			return nil, nil, err
+		}
+		keys = append(keys, k)
+		vals = append(vals, raw)
+	}
+	_, err = dec.Token()
+	return keys, vals, err
+}
+
+func kPaths(out *sink, toks []string) string {
+	d := &dec{toks: toks}
+	n := d.n()
+	type op struct{ verb, path string }
+	var ops []op
+	for i := 0; i < n && d.err == nil; i++ {
+		v := d.next()
+		p := unhexStr(d)
+		if _, ok := verbEnum[v]; !ok {
+			return "bad-op"
+		}
+		ops = append(ops, op{v, p})
+	}
+	if d.err != nil || d.pos != len(toks) {
+		return "bad-op"
+	}
+	svcs := []*client_j5pb.Service{{Name: "AService"}, {Name: "BService"}}
+	for i, o := range ops {
+		sv := svcs[i%2]
+		sv.Methods = append(sv.Methods, &client_j5pb.Method{
+			Name: fmt.Sprintf("M%d", i), FullGrpcName: fmt.Sprintf("/k.v1.%s/M%d", sv.Name, i),
+			HttpMethod: verbEnum[o.verb], HttpPath: o.path, Request: &client_j5pb.Method_Request{},
+		})
+	}
+	api := &client_j5pb.API{Packages: []*client_j5pb.Package{{Name: "k.v1", Services: svcs}}}
+	var js []byte
+	r := stage(stageTimeout, func() error {
+		doc, err := export.BuildSwagger(api)
+		if err != nil {
+			return err
+		}
+		js, err = json.Marshal(doc)
+		return err
+	})
+	out.count("paths." + r.class)
+	if r.class != "ok" {
+		out.fail("paths-"+r.sig("swagger"), r.detail)
+		return r.class
+	}
+	if !json.Valid(js) {
+		out.fail("paths:invalid-json", string(js))
+		return "err"
+	}
+	var top struct {
+		Paths json.RawMessage `json:"paths"`
+	}
+	if err := json.Unmarshal(js, &top); err != nil || top.Paths == nil {
+		out.fail("paths:unreadable-json", fmt.Sprint(err))
+		return "err"
+	}
+	keys, vals, err := orderedKeys(json.NewDecoder(bytes.NewReader(top.Paths)))
+	if err != nil {
+		out.fail("paths:unreadable-json", err.Error())
+		return "err"
+	}
+	var parts []string
+	seen := map[string]bool{}
+	have := map[string]bool{}
+	for i, k := range keys {
+		if seen[k] {
+			out.fail("swagger:path-key-duplicated", fmt.Sprintf("path %q occurs twice in the paths object", k))
+		}
+		seen[k] = true
+		verbs, _, err := orderedKeys(json.NewDecoder(bytes.NewReader(vals[i])))
+		if err != nil {
+			out.fail("paths:unreadable-json", err.Error())
+			return "err"
+		}
+		for _, v := range verbs {
+			have[k+" "+v] = true
+		}
+		parts = append(parts, vh.Hex([]byte(k))+"="+strings.Join(verbs, "+"))
+	}
+	// the property: every operation is in the document under its path and verb
+	for _, o := range ops {
+		if !have[o.path+" "+strings.ToLower(o.verb)] {
+			out.fail("swagger:operation-missing", fmt.Sprintf("%s %q", o.verb, o.path))
+		}
+	}
+	if len(keys) < len(ops) {
+		out.emit("N", "") // at least two operations share a path
+	}
+	return "ok " + csv(parts, "-")
 }
 
 // ---- rw: `:name` -> `{snake}`
@@ -804,6 +927,16 @@ func genKernel(h *vh.H, i int) string {
 	}
 	if h.Chance(1, 6) {
 		return "swag " + strings.Join(genSwagTree(h, 0, h.Chance(1, 3)), " ")
+	}
+	if h.Chance(1, 12) {
+		// paths: few distinct paths (also "", "/", trailing slash, differing only by a parameter name) so that operations share path items
+		pool := pickN(h, []string{"/", "", "/a", "/a/", "/a/:id", "/a/:x", "/b", "/a/b", "//a", "/:id"}, 1+h.Rng.IntN(4))
+		n := h.Rng.IntN(7)
+		toks := []string{"paths", fmt.Sprint(n)}
+		for k := 0; k < n; k++ {
+			toks = append(toks, vh.Pick(h, []string{"GET", "POST", "PUT", "DELETE", "PATCH"}), vh.Hex([]byte(vh.Pick(h, pool))))
+		}
+		return strings.Join(toks, " ")
 	}
 	switch h.Rng.IntN(5) {
 	case 0: // rw
